@@ -45,6 +45,9 @@ func main() {
 	if t := os.Getenv("VERIF_TIER"); t != "" && *tier == "" {
 		*tier = t
 	}
+	if strings.HasPrefix(*mutant, "seeded:") {
+		os.Exit(runSeededChild(*prop, *repo, *verif, strings.TrimPrefix(*mutant, "seeded:")))
+	}
 	if *mutant != "" {
 		os.Exit(runMutantChild(*prop, *repo, *mutant))
 	}
@@ -73,7 +76,7 @@ func main() {
 		check(c)
 	}()
 	if *tier == "thorough" {
-		thoroughExtras(c, check, *prop, *repo)
+		thoroughExtras(c, check, *prop, *repo, *verif)
 	}
 	if *dump {
 		for _, ob := range c.R.obs {
